@@ -15,6 +15,7 @@ mod scoregen;
 mod session;
 mod settings;
 mod strains;
+mod maniarec;
 mod strainsvec;
 mod utilsrep;
 mod util;
@@ -48,6 +49,7 @@ fn main() {
         "miri-run" => lifecycle::miri_run(rest),
         "strainsvec-replay" => strainsvec::main(rest),
         "utils-replay" => utilsrep::main(rest),
+        "mania-record" => maniarec::main(rest),
         "mods-replay" => modsrep::main(rest),
         "convert-replay" => convert::replay_main(rest),
         "convert-record" => convert::record_main(rest),
